@@ -13,7 +13,7 @@ CHECKS = {
          "one-64-bit-word-per-call stream model; E as fixed in DESIGN 4; position range 0..7"),
 }
 NA = {
- "C04": "check not built yet in this session (in progress)",
+
  "C05": "check not built yet in this session (in progress)",
  "C06": "check not built yet in this session (in progress)",
  "C07": "check not built yet in this session (in progress)",
